@@ -612,7 +612,8 @@ def match_fallbacks(facts, fn):
             for second, blks in reads.items():
                 if second == tested:
                     continue
-                if all(f2.dominates(ee['0'], x) for x in blks):
+                # (the second source may also be read elsewhere for another field, e.g. `enumeration` itself)
+                if any(f2.dominates(ee['0'], x) for x in blks) and not any(f2.dominates(ee['1'], x) for x in blks):
                     out.append((tested, second))
     return out
 
